@@ -39,7 +39,9 @@ def gen(rng, k):
         pref = 248 + (pref - 252)
     bypass = rng.random() < 0.15
     nameX = gen_ca.mk_name(rng, aac) | (1 << 40)
-    stacks = [dict(dll='j1939-21', max_cmdt=3, subs=[], cas=[dict(name=nameX, addr=pref, bypass=bypass, subs=[1], req=[2])])]
+    # "started with claiming bypassed" without a preferred address: there is no address to hold, every send must raise
+    no_addr = bypass and rng.random() < 0.4
+    stacks = [dict(dll='j1939-21', max_cmdt=3, subs=[], cas=[dict(name=nameX, addr=(None if no_addr else pref), bypass=bypass, subs=[1], req=[2])])]
     script = []
     started = (not bypass) and rng.random() < 0.85
     t_start = rng.choice([1000, 300000])
